@@ -44,7 +44,7 @@ fn leaves() -> Vec<Expr> {
 /// names that are not a plain identifier, strings holding a quote, a line break or a tab
 fn odd_leaves() -> Vec<Expr> {
     let mut v: Vec<Expr> = ["a b", "", "degC", "to", "per", "mod", "in", "and", "or", "xor", "celsius", "℃", "degF", "°F", "fahrenheit", "℉", "degRé", "°Ré", "degRe", "°Re", "réaumur", "reaumur",
-            "degRø", "°Rø", "degRo", "°Ro", "rømer", "romer", "degDe", "°De", "delisle", "degN", "°N", "degnewton", "of", "now", "Å", "µ", "a_b", "a$", "$a", "_", "é", "it\"s", "a\\b", "1x", "x-y", "2", "-", "a'b", " ", "x\ny", "0x1f", "°C", "m^2", "(", "a,b", "#"]
+            "degRø", "°Rø", "degRo", "°Ro", "rømer", "romer", "degDe", "°De", "delisle", "degN", "°N", "degnewton", "of", "now", "Å", "a ", " a", "\\u41", "\"a\"", "a\t", " ", "  b  ", "\\", "\\u", "a\"", ">", ">x", "->", "<<", "*", "**", "µ", "a_b", "a$", "$a", "_", "é", "it\"s", "a\\b", "1x", "x-y", "2", "-", "a'b", " ", "x\ny", "0x1f", "°C", "m^2", "(", "a,b", "#"]
         .iter().map(|n| Expr::new_unit(n.to_string())).collect();
     for q in ["it's", "a\nb", "\t", "", "'", "a\"b", "''", "\n'"] { v.push(Expr::Quote { string: q.to_string() }); }
     v
@@ -121,6 +121,16 @@ pub fn run(o: &Opts) -> i32 {
     let mut o1 = vec![];
     for x in &odd { let mut t = vec![]; parents(&[x.clone()], &mut t, false); o1.extend(t); parents(&[l0[0].clone(), x.clone()], &mut o1, true); }
     for e in odd.iter().chain(o1.iter()) { emit(e, &mut total, &mut samples); }
+    // property names that are not a plain word, over plain and odd operands
+    for p in ["of", "a b", "", "to", "degC", "in", "a ", "\\u41", "x\"y", "(of)", "now", "per"] {
+        for x in l0.iter().chain(odd.iter().take(8)) {
+            emit(&Expr::new_of(p, x.clone()), &mut total, &mut samples);
+            emit(&Expr::Mul { exprs: vec![l0[0].clone(), Expr::new_of(p, x.clone())] }, &mut total, &mut samples);
+            emit(&Expr::new_negate(Expr::new_of(p, x.clone())), &mut total, &mut samples);
+        }
+    }
+    // a sign in front of a name that starts like an operator
+    for n in [">", ">x", "->", "-", "+", "*"] { emit(&Expr::new_negate(Expr::new_unit(n.to_string())), &mut total, &mut samples); emit(&Expr::new_plus(Expr::new_unit(n.to_string())), &mut total, &mut samples); }
     // depth 2: parents of (leaves ∪ depth-1 with two leaves only)
     let small0: Vec<Expr> = l0[..2].to_vec();
     let mut s1 = vec![]; parents(&small0, &mut s1, true);
